@@ -141,6 +141,14 @@ def corpus():
             cur.append(l.split(" => ")[0])
         if cur:
             res.append(Case(f"{name}#{k}", cur, tags=("corpus",)))
+    # the default capacity (ConcurrencyMaxCount = 4000, ParamsMaxCapacity = 0): one long-running request for value 0 and
+    # n other values passing through; n = 3999 fills the cache exactly (value 0 still capped), n = 4000 evicts value 0's cell
+    for n in (3999, 4000):
+        ops = ["load r1;c;0;;1;0;", "entry long r1 i:0", "entry dup r1 i:0"]
+        for i in range(1, n + 1):
+            ops += [f"entry x{i} r1 i:{i}", f"exit x{i}"]
+        ops += ["entry second r1 i:0", "exit long", "exit second", "entry a r1 i:0", "entry b r1 i:0", "entry c r1 i:0"]
+        res.append(Case(f"default-capacity-{n}", ops, tags=("corpus", "capacity")))
     return res
 
 
